@@ -183,6 +183,8 @@ static std::vector<Op> make_ops() {
                  [=](Real& R) { vec_znx_big_range_normalize_base2k(R.mod, K, R.v(V0), 1, R.sl[0], BIG(B0), 1, 2, 1, R.tmp.p); }});
   ops.push_back({"V2 limb0 = znx_small_single_product(V0 limb0, V1 limb0)", true, [=](const MState& m, const Budget& b, MState& n) { if (!defd(m, {V0, V1, V2}) || !b.prod_ok({&m.s[V0].v[0]}, {&m.s[V1].v[0]})) return false; Poly r = negacyclic_mul(m.s[V0].v[0], m.s[V1].v[0]); if (!int_ok({r})) return false; n = m; n.s[V2].v[0] = r; return true; },
                  [](Real& R) { GBuf t(znx_small_single_product_tmp_bytes(R.mod), 8); znx_small_single_product(R.mod, R.v(V2), R.v(V0), R.v(V1), t.p); }});
+  ops.push_back({"V2 limb0 = znx_small_single_product(V1 limb0, V1 limb0)  (same pointer twice)", true, [=](const MState& m, const Budget& b, MState& n) { if (!defd(m, {V1, V2}) || !b.prod_ok({&m.s[V1].v[0]}, {&m.s[V1].v[0]})) return false; Poly r = negacyclic_mul(m.s[V1].v[0], m.s[V1].v[0]); if (!int_ok({r})) return false; n = m; n.s[V2].v[0] = r; return true; },
+                 [](Real& R) { GBuf t(znx_small_single_product_tmp_bytes(R.mod), 8); znx_small_single_product(R.mod, R.v(V2), R.v(V1), R.v(V1), t.p); }});
   return ops;
 }
 
@@ -195,6 +197,9 @@ static MState initial(uint64_t N, bool ntt, int data) {
   if (data == 1 && ntt) {
     const int64_t ext[8] = {INT64_MIN, INT64_MAX, INT64_MIN + 1, -1, INT64_MIN + 123456789, INT64_MAX - 1, -(INT64_C(1) << 62), (INT64_C(1) << 62) + 12345};
     for (int l = 0; l < 2; ++l) for (uint64_t j = 0; j < N; ++j) { m.s[V0].v[l][j] = ext[(j + 3 * l) % 8]; if ((j + l) % 3 == 0) m.s[V1].v[l][j] = ext[(j + l + 5) % 8]; }
+  } else if (data == 2) {
+    // every coefficient of V0 a non-zero multiple of 2^32 (a plaintext scaled by a power of two), V1 small
+    for (int l = 0; l < 2; ++l) for (uint64_t j = 0; j < N; ++j) { int64_t v = (int64_t)((j * 3 + l) % 7 + 1) << (32 + l); m.s[V0].v[l][j] = ((j + l) & 1) ? -v : v; }
   } else if (data == 1) {
     for (int l = 0; l < 2; ++l) for (uint64_t j = 0; j < N; ++j) { int64_t mag = (INT64_C(1) << 34) / (int64_t)N; int64_t v = mag - (int64_t)((j * 2654435761u + l * 40503u) % (uint64_t)(mag / 4 + 1)); m.s[V0].v[l][j] = ((j + l) & 1) ? -v : v; }
   }
@@ -239,7 +244,7 @@ int main(int argc, char** argv) {
   std::vector<Op> ops = make_ops();
   struct Cfg { uint64_t N; MODULE_TYPE t; int depth; int data; };
   std::vector<Cfg> cfgsv;
-  for (uint64_t N : (th ? std::vector<uint64_t>{4, 8, 16, 64} : std::vector<uint64_t>{4, 8})) for (int data = 0; data < 2; ++data) { cfgsv.push_back({N, FFT64, th ? (N <= 8 ? 6 : 5) : 5, data}); cfgsv.push_back({N, NTT120, th ? 7 : 6, data}); }
+  for (uint64_t N : (th ? std::vector<uint64_t>{4, 8, 16, 64} : std::vector<uint64_t>{4, 8})) for (int data = 0; data < 3; ++data) { cfgsv.push_back({N, FFT64, th ? (N <= 8 ? 6 : 5) : 5, data}); cfgsv.push_back({N, NTT120, th ? 7 : 6, data}); }
   uint64_t tot_states = 0, tot_trans = 0, capped_levels = 0;
   Json perj = Json::arr();
   for (auto& C : cfgsv) {
@@ -294,7 +299,7 @@ int main(int argc, char** argv) {
   ex.set("states", tot_states).set("transitions", tot_trans).set("traces_validated_against_impl", tot_trans).set("per_configuration", perj).set("op_instances", (long long)ops.size());
   if (capped_levels) ex.set("enumeration_cap", "the transition cap was reached in at least one configuration: the deepest level of that configuration is incomplete");
   ctx.assumptions = {"an op is enabled only when the interpreter's exact result stays inside the budget of its representation (FFT64: summed C01 error budget < 1/4 and |x|_1 < 2^44 in DFT space, |coeff| < 2^50 for big vectors; NTT120: |coeff| < 2^110); sequences leaving the budget are pruned, not judged",
-                     "model states are merged only when all slot values and, for opaque DFT/prepared slots, the producing expression coincide", "two initial datasets per configuration: small polynomials, and magnitudes at the edge of the representation (NTT120: int64 extremes incl. INT64_MIN; FFT64: ~2^34/N against small multipliers); each node is rebuilt by replaying its history on fresh objects"};
+                     "model states are merged only when all slot values and, for opaque DFT/prepared slots, the producing expression coincide", "three initial datasets per configuration: small polynomials; magnitudes at the edge of the representation (NTT120: int64 extremes incl. INT64_MIN; FFT64: ~2^34/N against small multipliers); V0 with every coefficient a multiple of 2^32; each node is rebuilt by replaying its history on fresh objects"};
   return ctx.finish("model_checking",
                     "breadth-first enumeration of the model state graph over ~30 op instances of the public API (coefficient ops, normalisation, dft, svp, vmp, idft, idft_tmp_a, big arithmetic, small product) to the depth bound for N in {4,8} (both VMP layouts; 16, 64 thorough) and both module types; "
                     "every transition replayed on the real library and compared with the exact interpreter; distinct = distinct pipelines",
